@@ -26,3 +26,32 @@ Theorem C01_get_is_newest_version : forall d k ts,
   GetProofs.lsm_wf d -> db_get d k ts = CompactProofs.newest (GetProofs.all_entries d) k ts.
 Proof. exact GetProofs.db_get_newest. Qed.
 Print Assumptions C01_get_is_newest_version.
+
+(* ---- end to end (normal mode, sequential histories, no drop prefixes): in every state a history
+   reaches, a Get at a read timestamp at or above every discard timestamp a compaction has used
+   so far (and evaluated at a wall-clock time at or after every compaction's) returns exactly
+   what the MVCC specification Spec.vis says about the list of applied writes.
+   Proof: B/TreeSpecProofs.v (on top of the C12 tree invariant and the C11 invariant). *)
+From Verif Require Import Compact Iter Sys SysReopen SysTree.
+From Verif Require TreeSpecProofs.
+Theorem C01_get_equals_spec : forall detect nkeep nlevels next ops,
+  (0 < nlevels)%nat -> Forall op_plain ops ->
+  let s := snd (exec_tree (init_sys false detect nkeep nlevels next) ops 0) in
+  forall k ts now, TreeSpecProofs.max_discard ops <= ts -> TreeSpecProofs.max_now ops <= now ->
+    CompactProofs.vis_of now (db_get (s_db s) k ts) = vis (s_writes s) k ts now.
+Proof. exact TreeSpecProofs.get_equals_spec. Qed.
+Print Assumptions C01_get_equals_spec.
+
+(* the invariant behind it, per label: the reads of the tree and the specification over the
+   ghost list of writes stay equal above the largest discard timestamp used so far *)
+Theorem C01_refinement_step : forall s o s' D W,
+  TreeSpecProofs.SpecInv s D W -> op_plain o -> step_tree s o = Ok s' ->
+  TreeSpecProofs.SpecInv s' (N.max D (TreeSpecProofs.op_discard o)) (N.max W (TreeSpecProofs.op_now o)).
+Proof. exact TreeSpecProofs.step_tree_spec. Qed.
+Print Assumptions C01_refinement_step.
+
+(* Spec.vis is "the newest write at or below ts" when no key@version is written twice *)
+Theorem C01_spec_is_newest : forall ws k ts now,
+  CompactProofs.nodup_kv ws -> vis ws k ts now = CompactProofs.vis_of now (CompactProofs.newest ws k ts).
+Proof. exact TreeSpecProofs.vis_newest. Qed.
+Print Assumptions C01_spec_is_newest.
